@@ -77,7 +77,7 @@ func (w *failWriter) Write(p []byte) (int, error) {
 	return n, nil
 }
 
-var resScenarios = []string{"builder-close", "build-close", "build-fail", "parse-close", "parse-fault", "parse-fault", "parse-fault", "revisit-merge", "revisit-built-merge", "revisit-built-merge", "reader", "reader-badoffset", "reader-directory", "reader-missing", "reader-beyond", "marshal-fail"}
+var resScenarios = []string{"builder-close", "build-close", "build-fail", "build-fail-idfunc", "parse-close", "parse-fault", "parse-fault", "parse-fault", "revisit-merge", "revisit-built-merge", "revisit-built-merge", "reader", "reader-badoffset", "reader-directory", "reader-missing", "reader-beyond", "marshal-fail"}
 
 func genRes(r *rand.Rand, n int, tier string, out *bufio.Writer) {
 	for i := 0; i < n; i++ {
@@ -154,6 +154,15 @@ func runRes(toks []string) (string, string) {
 		case "build-fail":
 			rb := newBuilder(gowarc.WithStrictValidation())
 			rb.AddWarcHeader("WARC-Date", "not a date") // duplicate and invalid: strict Build fails
+			rec, _, _ := rb.Build()
+			mark("failed")
+			if rec != nil {
+				rec.Close()
+			}
+			rb.Close()
+		case "build-fail-idfunc":
+			// Build fails before a record exists: only the builder can be closed
+			rb := newBuilder(gowarc.WithRecordIdFunc(func() (string, error) { return "", errInjected }))
 			rec, _, _ := rb.Build()
 			mark("failed")
 			if rec != nil {
